@@ -86,6 +86,10 @@ constexpr auto lgamma_check(T const x) noexcept -> T
         is_nan(x) ? etl::numeric_limits<T>::quiet_NaN() :
                   // indistinguishable from one or <= zero
             etl::numeric_limits<T>::epsilon() > abs(x - T(1)) ? T(0)
+        : is_posinf(x)                                        ? x
+                                                              // (0, 1): lgamma(x) = lgamma(x + 1) - log(x); the Lanczos sum
+                                                              // loses all accuracy when evaluated at x - 1 near -1
+        : (T(0) < x && x < T(1))                              ? lgamma_begin(x) - log(x)
         : etl::numeric_limits<T>::epsilon() > x               ? etl::numeric_limits<T>::infinity()
                                                               :
                                                 // else
